@@ -337,4 +337,308 @@ theorem reuse_eq_fresh_general (init reset : Assigns) (written exempt : List Str
       exact this hl
     · exact hf he
 
+
+/-! ### tsort: the order INSIDE a dependency set -/
+
+/-- same keys in the same order, each dependency set enumerated in a possibly different order -/
+def InnerEq : Dag → Dag → Prop
+  | [], [] => True
+  | p :: d, q :: d' => p.1 = q.1 ∧ p.2.Perm q.2 ∧ InnerEq d d'
+  | _, _ => False
+
+theorem InnerEq.refl : ∀ d : Dag, InnerEq d d
+  | [] => trivial
+  | _ :: d => ⟨rfl, Perm.refl _, InnerEq.refl d⟩
+
+theorem InnerEq.length {d d' : Dag} (h : InnerEq d d') : d.length = d'.length := by
+  induction d generalizing d' with
+  | nil => cases d' <;> simp_all [InnerEq]
+  | cons p d ih => cases d' with
+    | nil => simp [InnerEq] at h
+    | cons q d' => simp [ih h.2.2]
+
+theorem InnerEq.append {a a' b b' : Dag} (h1 : InnerEq a a') (h2 : InnerEq b b') : InnerEq (a ++ b) (a' ++ b') := by
+  induction a generalizing a' with
+  | nil => cases a' <;> simp_all [InnerEq]
+  | cons p a ih => cases a' with
+    | nil => simp [InnerEq] at h1
+    | cons q a' => exact ⟨h1.1, h1.2.1, ih h1.2.2⟩
+
+theorem keys_innerEq {d d' : Dag} (h : InnerEq d d') : keys d = keys d' := by
+  induction d generalizing d' with
+  | nil => cases d' <;> simp_all [InnerEq, keys]
+  | cons p d ih => cases d' with
+    | nil => simp [InnerEq] at h
+    | cons q d' => simp only [keys, List.map_cons, h.1]; congr 1; exact ih h.2.2
+
+theorem ready_innerEq {d d' : Dag} (h : InnerEq d d') : ready d = ready d' := by
+  induction d generalizing d' with
+  | nil => cases d' <;> simp_all [InnerEq, ready]
+  | cons p d ih => cases d' with
+    | nil => simp [InnerEq] at h
+    | cons q d' =>
+      have he : p.2.isEmpty = q.2.isEmpty := perm_isEmpty h.2.1
+      have := ih h.2.2
+      simp only [ready] at this ⊢
+      simp only [List.filter_cons, he]
+      split <;> simp [h.1, this]
+
+theorem stepDag_innerEq {d d' : Dag} (c : List Nat) (h : InnerEq d d') : InnerEq (stepDag d c) (stepDag d' c) := by
+  induction d generalizing d' with
+  | nil => cases d' <;> simp_all [InnerEq, stepDag]
+  | cons p d ih => cases d' with
+    | nil => simp [InnerEq] at h
+    | cons q d' =>
+      have := ih h.2.2
+      simp only [stepDag] at this ⊢
+      simp only [List.filter_cons, h.1]
+      split
+      · exact ⟨h.1, h.2.1.filter _, this⟩
+      · exact this
+
+theorem tsortLoop_innerEq (n : Nat) {d d' : Dag} (acc : List Nat) (h : InnerEq d d') :
+    tsortLoop n d acc = tsortLoop n d' acc := by
+  induction n generalizing d d' acc with
+  | zero =>
+    cases d <;> cases d' <;> simp_all [InnerEq, tsortLoop]
+  | succ n ih =>
+    cases d with
+    | nil => cases d' <;> simp_all [InnerEq, tsortLoop]
+    | cons p d =>
+      cases d' with
+      | nil => simp [InnerEq] at h
+      | cons q d' =>
+        simp only [tsortLoop, ready_innerEq h]
+        split
+        · rfl
+        · exact ih _ (stepDag_innerEq _ h)
+
+theorem flatMap_innerEq {d d' : Dag} (h : InnerEq d d') : (d.flatMap (·.2)).Perm (d'.flatMap (·.2)) := by
+  induction d generalizing d' with
+  | nil => cases d' <;> simp_all [InnerEq]
+  | cons p d ih => cases d' with
+    | nil => simp [InnerEq] at h
+    | cons q d' => simp only [List.flatMap_cons]; exact h.2.1.append (ih h.2.2)
+
+/-- **tsort does not depend on the order inside the dependency sets either** -/
+theorem tsort_innerEq {d d' : Dag} (h : InnerEq d d') : tsort d = tsort d' := by
+  unfold tsort
+  simp only
+  have hk := keys_innerEq h
+  -- the nodes added by the closure are the same set, possibly in another order
+  have hx : ((dedupFirst ((d.flatMap (·.2)).filter fun x => !(keys d).contains x)).map fun x => (x, ([] : List Nat))).Perm
+            ((dedupFirst ((d'.flatMap (·.2)).filter fun x => !(keys d').contains x)).map fun x => (x, ([] : List Nat))) := by
+    rw [hk]
+    exact (dedupFirst_perm ((flatMap_innerEq h).filter _)).map _
+  have hlen : (closeDag d).length = (closeDag d').length := by
+    simp only [closeDag, List.length_append, h.length, hx.length_eq]
+  rw [hlen]
+  -- closeDag d ~ d ++ X'  (outer permutation) and  d ++ X'  is InnerEq to  closeDag d'
+  have h1 : (closeDag d).Perm (d ++ (dedupFirst ((d'.flatMap (·.2)).filter fun x => !(keys d').contains x)).map fun x => (x, [])) :=
+    Perm.append_left d hx
+  rw [tsortLoop_perm _ _ h1]
+  exact tsortLoop_innerEq _ _ (InnerEq.append h (InnerEq.refl _))
+
+/-! ### absorb_and_eliminate: the iteration order of the operand sets -/
+
+theorem properSubset_perm {a a' b b' : List Nat} (ha : a.Perm a') (hb : b.Perm b') :
+    properSubset a b = properSubset a' b' := by
+  unfold properSubset
+  have e1 : (fun x => b.contains x) = fun x => b'.contains x := by funext x; exact hb.contains_eq
+  have e2 : (fun x => a.contains x) = fun x => a'.contains x := by funext x; exact ha.contains_eq
+  rw [e1, e2, ha.all_eq, hb.all_eq]
+
+/-- same operands in the same order, each sub-operand set enumerated in a possibly different order -/
+def AOpsEq : List AOp → List AOp → Prop
+  | [], [] => True
+  | o :: os, o' :: os' => o.dual = o'.dual ∧ o.lits.Perm o'.lits ∧ AOpsEq os os'
+  | _, _ => False
+
+theorem subops_any_eq {ops ops' : List AOp} (h : AOpsEq ops ops') (i : Nat) {sup sup' : List Nat} (hs : sup.Perm sup') :
+    ((subopsOf ops i).any fun sub => properSubset sub sup) = ((subopsOf ops' i).any fun sub => properSubset sub sup') := by
+  induction ops generalizing ops' with
+  | nil => cases ops' <;> simp_all [AOpsEq, subopsOf]
+  | cons o os ih => cases ops' with
+    | nil => simp [AOpsEq] at h
+    | cons o' os' =>
+      have hc : o.lits.contains i = o'.lits.contains i := h.2.1.contains_eq
+      have := ih h.2.2
+      simp only [subopsOf] at this ⊢
+      simp only [List.filter_cons, hc]
+      split
+      · simp only [List.map_cons, List.any_cons, this, properSubset_perm h.2.1 hs]
+      · exact this
+
+theorem absorbed_eq {ops ops' : List AOp} (h : AOpsEq ops ops') {sup sup' : List Nat} (hs : sup.Perm sup') :
+    absorbed ops sup = absorbed ops' sup' := by
+  unfold absorbed
+  have e : (fun i => (subopsOf ops i).any fun sub => properSubset sub sup) =
+           (fun i => (subopsOf ops' i).any fun sub => properSubset sub sup') := by
+    funext i; exact subops_any_eq h i hs
+  rw [e]; exact hs.any_eq
+
+theorem absorbPass_eq {ops ops' : List AOp} (h : AOpsEq ops ops') : absorbPass ops = absorbPass ops' := by
+  unfold absorbPass
+  suffices ∀ (xs xs' : List AOp), AOpsEq xs xs' →
+      xs.map (fun o => o.dual && absorbed ops o.lits) = xs'.map (fun o => o.dual && absorbed ops' o.lits) from this _ _ h
+  intro xs
+  induction xs with
+  | nil => intro xs' hx; cases xs' <;> simp_all [AOpsEq]
+  | cons o os ih =>
+    intro xs' hx
+    cases xs' with
+    | nil => simp [AOpsEq] at hx
+    | cons o' os' =>
+      simp only [List.map_cons, hx.1, absorbed_eq h hx.2.1, ih _ hx.2.2]
+
+
+
+/-! ### dict storage order: lookups on an association list with distinct keys -/
+
+theorem find_key_perm {α : Type} {d d' : List (Nat × α)} (k : Nat) (hn : (d.map (·.1)).Nodup) (h : d.Perm d') :
+    d.find? (fun p => p.1 == k) = d'.find? (fun p => p.1 == k) := by
+  induction h with
+  | nil => rfl
+  | cons a _ ih =>
+    simp only [List.map_cons, List.nodup_cons] at hn
+    simp only [List.find?_cons]; split
+    · rfl
+    · exact ih hn.2
+  | swap a b l =>
+    simp only [List.map_cons, List.nodup_cons, List.mem_cons, not_or] at hn
+    have hne : b.1 ≠ a.1 := hn.1.1
+    simp only [List.find?_cons]
+    cases hak : (a.1 == k) <;> cases hbk : (b.1 == k) <;> simp only []
+    exact absurd ((beq_iff_eq.mp hbk).trans (beq_iff_eq.mp hak).symm) hne
+  | trans h1 _ ih1 ih2 =>
+    rw [ih1 hn, ih2 (((h1.map (·.1)).nodup_iff).mp hn)]
+
+theorem dget_perm {d d' : List (Nat × Name)} (k : Nat) (hn : (d.map (·.1)).Nodup) (h : d.Perm d') : dget d k = dget d' k := by
+  unfold dget; rw [find_key_perm k hn h]
+
+theorem findFrom_perm {t t' : List Name} (h : t.Perm t') (base : Name) (fuel i : Nat) :
+    findFrom t base fuel i = findFrom t' base fuel i := by
+  induction fuel generalizing i with
+  | zero => rfl
+  | succ n ih => simp only [findFrom, h.contains_eq, ih]
+
+theorem findNewName_perm {t t' : List Name} (h : t.Perm t') (base : Name) : findNewName t base = findNewName t' base := by
+  unfold findNewName; rw [h.contains_eq, h.length_eq, findFrom_perm h]
+
+/-- two states of `existing_ctes` / `taken` that hold the same entries in a different storage order -/
+def CteSt.Same (a b : CteSt) : Prop := a.existing.Perm b.existing ∧ a.taken.Perm b.taken
+
+def CteSt.Ok (a : CteSt) : Prop := (a.existing.map (·.1)).Nodup
+
+theorem dget_none_not_mem {d : List (Nat × Name)} {k : Nat} (h : dget d k = none) : k ∉ d.map (·.1) := by
+  intro hm
+  obtain ⟨p, hp, rfl⟩ := List.mem_map.mp hm
+  unfold dget at h
+  simp only [Option.map_eq_none_iff] at h
+  have := List.find?_eq_none.mp h p hp
+  simp at this
+
+/-- one `_new_cte` call: same decision, same tables (up to storage order), distinct keys preserved -/
+theorem newCte_same {a b : CteSt} (hs : a.Same b) (ha : a.Ok) (key : Nat) (alias : Name) :
+    (newCte a key alias).1 = (newCte b key alias).1 ∧ (newCte a key alias).2.1 = (newCte b key alias).2.1 ∧
+    (newCte a key alias).2.2.Same (newCte b key alias).2.2 ∧ (newCte a key alias).2.2.Ok := by
+  obtain ⟨he, ht⟩ := hs
+  have hd := dget_perm key ha he
+  unfold newCte
+  simp only [← hd, findNewName_perm ht, ht.contains_eq]
+  cases hg : dget a.existing key with
+  | some dup => exact ⟨rfl, rfl, ⟨he, ht.cons _⟩, ha⟩
+  | none =>
+    refine ⟨rfl, rfl, ⟨he.cons _, ht.cons _⟩, ?_⟩
+    simp only [CteSt.Ok, List.map_cons, List.nodup_cons]
+    exact ⟨dget_none_not_mem hg, ha⟩
+
+/-- **CTE de-duplication**: every decision of an eliminate_subqueries run (which name, new CTE or reuse) is the same
+    whatever order the two dicts store their entries in -/
+theorem elimAll_same {a b : CteSt} (hs : a.Same b) (ha : a.Ok) (xs : List (Nat × Name)) : elimAll a xs = elimAll b xs := by
+  induction xs generalizing a b with
+  | nil => rfl
+  | cons x xs ih =>
+    obtain ⟨k, al⟩ := x
+    have := newCte_same hs ha k al
+    simp only [elimAll, this.1, this.2.1]
+    congr 1
+    exact ih this.2.2.1 this.2.2.2
+
+/-! ### process-wide tables filled on demand -/
+
+def Coherent (build : Nat → Nat) (t : Table) : Prop := ∀ k v, tget t k = some v → v = build k
+
+theorem tget_cons (t : Table) (k k' v : Nat) :
+    tget ((k', v) :: t) k = if k' = k then some v else tget t k := by
+  unfold tget
+  simp only [List.find?_cons]
+  cases h : (k' == k)
+  · have : ¬ k' = k := by simpa using h
+    simp [this]
+  · have : k' = k := by simpa using h
+    simp [this]
+
+theorem fillGet_coherent {build : Nat → Nat} {t : Table} (h : Coherent build t) (k : Nat) :
+    Coherent build (fillGet build t k).2 := by
+  unfold fillGet
+  cases hg : tget t k with
+  | some v => exact h
+  | none =>
+    intro k' v' hv
+    rw [tget_cons] at hv
+    split at hv
+    · next e => cases hv; rw [e]
+    · exact h k' v' hv
+
+theorem fillGet_value {build : Nat → Nat} {t : Table} (h : Coherent build t) (k : Nat) : (fillGet build t k).1 = build k := by
+  unfold fillGet
+  cases hg : tget t k with
+  | some v => exact h k v hg
+  | none => rfl
+
+theorem fillGet_present {build : Nat → Nat} {t : Table} {k v : Nat} (h : tget t k = some v) : fillGet build t k = (v, t) := by
+  unfold fillGet; rw [h]
+
+theorem runFills_coherent {build : Nat → Nat} {t : Table} (h : Coherent build t) (ks : List Nat) :
+    Coherent build (runFills build t ks) := by
+  induction ks generalizing t with
+  | nil => exact h
+  | cons k ks ih => exact ih (fillGet_coherent h k)
+
+theorem coherent_nil (build : Nat → Nat) : Coherent build [] := by
+  intro k v h; simp [tget] at h
+
+/-! ### keyword settings in any order -/
+
+theorem lastVal_eq_of_nodup {as : Assigns} (hn : (as.map (·.1)).Nodup) {f v : String} (hm : (f, v) ∈ as) :
+    lastVal as f = some v := by
+  induction as with
+  | nil => cases hm
+  | cons p rest ih =>
+    obtain ⟨g, w⟩ := p
+    simp only [List.map_cons, List.nodup_cons] at hn
+    simp only [lastVal]
+    rcases List.mem_cons.mp hm with e | hm'
+    · cases e
+      rw [lastVal_none_of_not_mem hn.1]; simp
+    · rw [ih hn.2 hm']
+
+theorem lastVal_perm {as as' : Assigns} (hn : (as.map (·.1)).Nodup) (h : as.Perm as') (f : String) :
+    lastVal as f = lastVal as' f := by
+  have hn' : (as'.map (·.1)).Nodup := ((h.map (·.1)).nodup_iff).mp hn
+  cases hl : lastVal as f with
+  | some v => rw [lastVal_eq_of_nodup hn' (h.mem_iff.mp (lastVal_mem hl))]
+  | none =>
+    cases hl' : lastVal as' f with
+    | none => rfl
+    | some v =>
+      have := lastVal_eq_of_nodup hn (h.mem_iff.mpr (lastVal_mem hl'))
+      rw [hl] at this; cases this
+
+theorem setAll_perm {as as' : Assigns} (hn : (as.map (·.1)).Nodup) (h : as.Perm as') (st : State) (f : String) :
+    setAll as st f = setAll as' st f := by
+  rw [setAll_eq, setAll_eq, lastVal_perm hn h]
+
+
 end SqlglotModel.Determinism
